@@ -14,4 +14,4 @@ def harnesses(world, tier, seed):
                     'clock': 'virtual: op i at BASE + 0.6875 s * (g1+..+gi), g symbolic 0..5; constant within one operation', 'desired_size': '512 (no eviction can occur)'},
             assumptions=('sequential use (one thread)', 'all Instant::now() readings within one cache operation are equal'),
             expected_classes=('ins get get' if q else 'ins get get get', 'ins prune get' if q else 'ins ins prune get'))]
-    return hs, (420 if q else 2700), None
+    return hs, (1500 if q else 5400), None
